@@ -1,5 +1,8 @@
 import Driver.Proto
 import ScrapliModel.Failed
+import ScrapliModel.FailedText
+import ScrapliModel.FailedFault
+import ScrapliModel.Generated.Platforms
 /-!
 Line protocol for C13.
 
@@ -12,7 +15,10 @@ request : `c13 <api> <drv> <op> <stop> <cmds> <outs> [ignored…]`
            option of another layer (channel / network / netconf), `b` an option returning an error
 * `stop` : `1` iff opoptions.WithStopOnFailed given
 * `cmds` : hex list of commands (`g.cmd`/`n.cmd`: one element; `n.cfg`: one element, the config text)
-* `outs` : hex list; the device answers the i-th transmitted line with `outs[i]` (empty beyond)
+* `outs` : hex list; the device answers the i-th transmitted line with `outs[i]` (empty beyond); `!` = never
+           answers it (the channel returns an error)
+
+request : `c13 platlist` → every embedded platform definition with its failed-when-contains list
 
 answer  : `<dom> <nolf> <spec> <model> <agree>`
 * `dom`   : `NoEmpty (effective op drv)` and the command list is non-empty
@@ -31,12 +37,13 @@ def idxDev (outs : List Bytes) : Dev Nat := fun i _ => (i + 1, outs.getD i [])
 def joinWith (sep : String) (l : List String) : String :=
   if l.isEmpty then "." else sep.intercalate l
 
-def showErr (e : OpErr) : String := s!"{toHex e.input};{toHex e.output};{toHex e.errStr}"
+/-- fields and `Error()` text of an `*OperationError` -/
+def showErr (e : OpErr) : String := s!"{toHex e.input};{toHex e.output};{toHex e.errStr};{toHex e.text}"
 
 def showFailure : Option Failure → String
   | none => "0"
   | some (.op e) => "1~" ++ showErr e
-  | some (.multi es) => "2~" ++ joinWith "," (es.map showErr)
+  | some (.multi es) => "2~" ++ joinWith "," (es.map showErr) ++ "~" ++ toHex (multiText es)
 
 def showResp (r : Resp) : String :=
   s!"{toHex r.input};{toHex r.result};{joinWith "+" (r.fwc.map toHex)};{showFailure r.failed}"
@@ -116,12 +123,51 @@ def handleOp (api : String) (drv : List Bytes) (opF : Option (List Bytes)) (stop
     let spec := specMulti eff stop cmds outs
     let res := sendCommands (idxDev outs) drv op s0 cmds
     let model := match res with
-      | (some m, s') => s!"{showSent s'.log}|R{joinWith "/" (m.responses.map showResp)}|F{showFailure m.failed}"
+      | (some m, s') => s!"{showSent s'.log}|R{joinWith "/" (m.responses.map showResp)}|F{showFailure m.failed}|J{toHex m.joinedResult}"
       | (none, _) => "Enoop"
     let proj := match res with
       | (some m, s') => projMulti m s'.log
       | (none, _) => "Enoop"
     s!"{b2s (decide (NoEmpty eff) && !cmds.isEmpty)} {nolf} {spec} {model} {b2s (proj == spec)}"
+
+def idxDevE (outs : List (Option Bytes)) : DevE Nat := fun i _ => (i + 1, outs.getD i (some []))
+
+/-- a device that leaves a command unanswered (`!` in the outs list): the channel returns an error.
+Outside the property's statement (C05/C06 own the error itself); the model says what is transmitted
+and that no response object comes back. -/
+def handleFault (api : String) (drv : List Bytes) (op : Op) (cmds : List Bytes) (outs : List (Option Bytes)) : String :=
+  let s0 : Sess Nat := { dev := 0, log := [] }
+  let model :=
+    if api == "g.cmd" || api == "n.cmd" then
+      match cmds with
+      | [c] =>
+        (match sendCommandE (idxDevE outs) drv op s0 c with
+         | (some r, _, s') => s!"{showSent s'.log}|R{showResp r}"
+         | (none, _, s') => s!"Echan|{showSent s'.log}")
+      | _ => "bad-op"
+    else if api == "n.cfg" then
+      match cmds with
+      | [config] =>
+        (match sendConfigE (idxDevE outs) drv op s0 config with
+         | (some r, s') => s!"{showSent s'.log}|R{showResp r}"
+         | (none, s') => s!"Echan|{showSent s'.log}")
+      | _ => "bad-op"
+    else
+      match sendCommandsE (idxDevE outs) drv op s0 cmds with
+      | (.ok m, s') => s!"{showSent s'.log}|R{joinWith "/" (m.responses.map showResp)}|F{showFailure m.failed}|J{toHex m.joinedResult}"
+      | (.chanErr, s') => s!"Echan|{showSent s'.log}"
+      | (.noop, _) => "Enoop"
+  s!"0 1 - {model} 1"
+
+/-- `!` = the device never answers this line -/
+def hexListOpt (s : String) : Option (List (Option Bytes)) :=
+  if s == "." then some [] else (s.splitOn ",").mapM fun x => if x == "!" then some none else (fromHex x).map some
+
+/-- every embedded platform definition as loaded (`file:variant:failed-when-contains`), from the
+translator's platform facts -/
+def platList : String :=
+  joinWith "|" ((Scrapli.Platform.allLoaded Scrapli.Gen.Platforms.files).map fun l =>
+    s!"{l.file}:{toHex (ofStr l.variant)}:{joinWith "," (l.d.failedWhen.map fun x => toHex (ofStr x))}")
 
 def handle (api : String) (drv : List Bytes) (opts : List OpOpt) (cmds outs : List Bytes) : String :=
   -- `d.multi` drives the response package alone: no operation options are involved
@@ -137,10 +183,16 @@ end C13
 /-- line-protocol handler for property C13 (arguments after the leading `c13` token); a `1` in the
 `stop` field is the old spelling of a trailing `t` token -/
 def handleC13 : List String → String
+  | ["platlist"] => C13.platList
   | api :: drv :: op :: stop :: cmds :: outs :: _ =>
-    match hexList drv, C13.parseOpts op, hexList cmds, hexList outs with
-    | some drv, some opts, some cmds, some outs =>
-      C13.handle api drv (if s2b stop then opts ++ [.stop] else opts) cmds outs
+    match hexList drv, C13.parseOpts op, hexList cmds, C13.hexListOpt outs with
+    | some drv, some opts, some cmds, some outsE =>
+      let opts := if s2b stop then opts ++ [.stop] else opts
+      if outsE.any (·.isNone) then
+        match newOperationL opts with
+        | some op => C13.handleFault api drv op cmds outsE
+        | none => "0 1 Eother Eother 1"
+      else C13.handle api drv opts cmds (outsE.map (·.getD []))
     | _, _, _, _ => "bad-op"
   | _ => "bad-op"
 
